@@ -44,6 +44,8 @@ func genC11World(r *rand.Rand, scenario string) *World {
 		e.Strategy.Canary = &CanaryDef{Replicas: pick(r, "1", "2", "100%", "100%"), ValidationMode: "manual"}
 	case "canary-fail":
 		e.Strategy.Canary = &CanaryDef{Replicas: "1", Duration: "30m"}
+		// a broken release: the canary pods never become Ready, the rollback replaces unavailable pods
+		w.Extra["neverReady"] = "B"
 	case "canary-hold":
 		// a canary that starts and then waits for its manual validation; the daemon pod of the first
 		// node has restarted, so that node is not the one a failure-free run picks
@@ -128,7 +130,7 @@ func bodyC11(s *Sim) {
 		for _, n := range e.Status.Canary.Nodes {
 			ok := false
 			for _, p := range s.Store.Pods() {
-				if podNode(p) == n && letterOfPod(p) == "B" && podReady(p) {
+				if podNode(p) == n && letterOfPod(p) == "B" && (podReady(p) || (s.W.Extra["neverReady"] == "B" && p.Status.Phase == corev1.PodRunning)) {
 					ok = true
 				}
 			}
